@@ -40,3 +40,9 @@ func VerifNewKeyper(
 func (kpr *Keyper) VerifProcessNewBlock(ctx context.Context, ev *syncevent.LatestBlock) error {
 	return kpr.processNewBlock(ctx, ev)
 }
+
+// VerifLatestTriggeredTime returns the in-memory high-water mark of time based triggering.
+func (kpr *Keyper) VerifLatestTriggeredTime() *uint64 { return kpr.latestTriggeredTime }
+
+// VerifSetLatestTriggeredTime sets it (used to continue an exploration from a snapshot).
+func (kpr *Keyper) VerifSetLatestTriggeredTime(t *uint64) { kpr.latestTriggeredTime = t }
